@@ -176,3 +176,51 @@ Theorem C09_script_histories :
     exists db', InvDB (st_heap (fst (run_ops rs s ops))) d db'.
 Proof. exact script_container_histories. Qed.
 Print Assumptions C09_script_histories.
+
+(* ---- one level down: columns and indexes of a table; both levels together ---- *)
+From PyDBML Require Import TableInv.
+
+(* Inv = InvDB (above) + for every table of the heap: its column list and the `table` pointers of columns agree in both
+   directions, likewise its index list, nothing listed twice.  After ANY history of Database.add / Database.delete (any
+   arguments) interleaved with add_column / add_index / delete_column / delete_index (by position or by object) in which
+   every table-level call respects [cguard] in the state it is made in — the receiver is a table, an added column or
+   index is not attached anywhere (else defect D24), on deletion by object the first member equal to the argument is the
+   argument itself (else defect D23) — Inv holds again. *)
+Theorem C09_two_level_invariant_all_histories :
+  forall d ops h db, Inv h d db -> guarded d ops h -> exists db', Inv (fold_left (fun h op => cexec d op h) ops h) d db'.
+Proof. exact container_invariant_history. Qed.
+Print Assumptions C09_two_level_invariant_all_histories.
+
+(* base case for the table level: nothing attached yet *)
+Theorem C09_table_level_invariant_initially :
+  forall h, (forall t tb, h_table h t = Some tb -> t_columns tb = [] /\ t_indexes tb = []) ->
+    (forall c cc, nth_error h c = Some (OColumn cc) -> c_table cc = None) ->
+    (forall c cc, nth_error h c = Some (OIndex cc) -> i_table cc = None) -> WW h.
+Proof. exact WW_detached. Qed.
+Print Assumptions C09_table_level_invariant_initially.
+
+(* an index over a foreign column is refused and nothing changes *)
+Theorem C09_index_over_foreign_column_refused :
+  forall h t i ix subs c cc, nth_error h i = Some (OIndex ix) -> i_subjects ix = Some subs -> In (SubCol c) subs ->
+    h_column h c = Some cc -> c_table cc <> Some t -> table_add_index t i h = (h, Raise EColumnNotFound).
+Proof. exact add_index_foreign_refused. Qed.
+Print Assumptions C09_index_over_foreign_column_refused.
+
+(* add_column of a detached column: it becomes the last column and points to the table *)
+Theorem C09_add_column_appends_and_attaches :
+  forall h t tb c cc, WW h -> h_table h t = Some tb -> nth_error h c = Some (OColumn cc) -> c_table cc = None ->
+    let h' := tupd h t c (set_columns (t_columns tb ++ [c]) tb) (OColumn (set_c_table (Some t) cc)) in
+    table_add_column t c h = (h', Ok tt) /\ WW h'.
+Proof. exact add_column_step. Qed.
+Print Assumptions C09_add_column_appends_and_attaches.
+
+(* delete_column by position: rejected with the heap unchanged, or exactly that column is removed, detached and listed nowhere *)
+Theorem C09_delete_column_by_position :
+  forall h t tb z, WW h -> h_table h t = Some tb ->
+    rejected h (table_delete_column t (DAint z) h) \/
+    exists n c cc, py_index (length (t_columns tb)) z = Some n /\ nth_error (t_columns tb) n = Some c /\ nth_error h c = Some (OColumn cc) /\
+      let h' := tupd h t c (set_columns (remove_nth n (t_columns tb)) tb) (OColumn (set_c_table None cc)) in
+      table_delete_column t (DAint z) h = (h', Ok (Some c)) /\ WW h' /\
+      (forall x xb, h_table h' x = Some xb -> ~ In c (t_columns xb)).
+Proof. exact delete_column_int_step. Qed.
+Print Assumptions C09_delete_column_by_position.
